@@ -146,7 +146,16 @@ func FormatNumber(value float64, picture string, format DecimalFormat) (string, 
 		maxMantissa := math.Pow(10, float64(vars.ScalingFactor))
 		minMantissa := math.Pow(10, float64(vars.ScalingFactor-1))
 
-		for value < minMantissa {
+		// Scale the absolute value. Zero cannot be scaled into
+		// the mantissa range and a negative value never gets
+		// there, so the loops below would not terminate.
+		sign := 1.0
+		if value < 0 {
+			sign = -1.0
+			value = -value
+		}
+
+		for value != 0 && value < minMantissa {
 			value *= 10
 			exponent--
 		}
@@ -155,6 +164,8 @@ func FormatNumber(value float64, picture string, format DecimalFormat) (string, 
 			value /= 10
 			exponent++
 		}
+
+		value *= sign
 	}
 
 	var integerPart, fractionalPart, exponentPart string
